@@ -209,7 +209,10 @@ def run_impl(binary, scn, strace=None, inject=None, timeout=20, with_mtime=False
 
 def impl_line(res, tree_only=False):
     """canonical line comparable with the model's answer (without TRACE)"""
+    # with -o - the patched file goes to standard output and the messages go to standard error
     ev = "".join(m.group(1) + "\n" for m in EVENT_RE.finditer(res["stdout"].decode("latin-1")))
+    if not ev:
+        ev = "".join(m.group(1) + "\n" for m in EVENT_RE.finditer(res["stderr"].decode("latin-1")))
     t = {p: (k, m, d) for p, (k, m, d, *_) in res["tree"].items()}
     if res["exit"] == 2:
         ev = ""     # the model does not keep the messages printed before an exception reached main
